@@ -398,6 +398,17 @@ func features(c *Case, i int, fdKind string) []string {
 func classify(c *Case, fd *finding) (string, *Case, *finding) {
 	sc, sfd := shrink(c, fd)
 	sc, sfd = canonicalOrder(sc, sfd)
+	if causeKind(sfd.Kind) {
+		// a cause key of its own: one class whatever the manifestation, kind, options or entry
+		// (restated for plain UnmarshalJsonBytes where that reproduces it: the same representative from every shard)
+		if sc.Entry != EJSON {
+			jc := asJSONCase(sc)
+			if nfd, _ := check(jc); nfd != nil && nfd.Kind == sfd.Kind {
+				sc, sfd = jc, nfd
+			}
+		}
+		return sfd.Kind, sc, sfd
+	}
 	var feats []string
 	if sfd.Field >= 0 && sfd.Field < len(sc.Fields) {
 		feats = features(sc, sfd.Field, sfd.Kind)
